@@ -202,7 +202,7 @@ Theorem upload_not_cut :
     terminated s = false -> snd (upstep true s (UData n es)) = UOk.
 Proof. exact upload_not_cut_l. Qed.
 
-(** the condition before fix 26165b4 (a momentarily drained buffer was enough): the witness
+(** the condition before fix 0056615 (a momentarily drained buffer was enough): the witness
     replayed black-box by the graceful_shutdown phase of c15bb *)
 Example upload_cut_before_fix :
   let s := fold_left (fun st e => fst (upstep false st e)) [UData 100 false; UForward; UShutdownPass] (mkup false 0 false) in
